@@ -41,7 +41,31 @@ pub fn g_invalidate_on(a: u32, b: String) -> u64 { body2(a, b) }
 #[cache(limit = 8, name = "g_named_cache", tags = ["t1", "t2"], events = ["e1"], dependencies = ["d1"])]
 pub fn g_tagged(a: u32, b: String) -> u64 { body2(a, b) }
 
+#[cache(limit = 4, policy = "lru", ttl = 30)]
+pub fn g_lru_ttl(a: u32, b: String) -> u64 { body2(a, b) }
+
+#[cache(limit = 4, policy = "arc")]
+pub fn g_arc(a: u32, b: String) -> u64 { body2(a, b) }
+
+#[cache(limit = 4, policy = "tlru", ttl = 10, frequency_weight = 1.5)]
+pub fn g_tlru_fw(a: u32, b: String) -> u64 { body2(a, b) }
+
+#[cache(limit = 4, policy = "random")]
+pub fn g_random(a: u32, b: String) -> u64 { body2(a, b) }
+
+#[cache(limit = 8, cache_if = keep, invalidate_on = stale, max_memory = "2KB", policy = "lfu")]
+pub fn g_all(a: u32, b: String) -> u64 { body2(a, b) }
+
 // ---- sync, thread scope
+#[cache(scope = "thread", limit = 8, max_memory = "1MB")]
+pub fn t_result_mem(a: u32) -> Result<u64, String> { body_res(a) }
+
+#[cache(scope = "thread", limit = 2, policy = "lfu")]
+pub fn t_lfu(a: u32, b: String) -> u64 { body2(a, b) }
+
+#[cache(scope = "thread", invalidate_on = stale)]
+pub fn t_invalidate_on(a: u32, b: String) -> u64 { body2(a, b) }
+
 #[cache(scope = "thread", limit = 8, policy = "fifo")]
 pub fn t_plain(a: u32, b: String) -> u64 { body2(a, b) }
 
@@ -102,3 +126,12 @@ pub async fn a_tagged(a: u32, b: String) -> u64 { body2(a, b) }
 
 #[cache_async(limit = 8)]
 pub async fn a_noargs() -> u64 { 0 }
+
+#[cache_async(limit = 8, cache_if = keep, invalidate_on = stale, max_memory = "2KB")]
+pub async fn a_all(a: u32, b: String) -> u64 { body2(a, b) }
+
+#[cache_async(limit = 4, policy = "lru", ttl = 30)]
+pub async fn a_lru_ttl(a: u32, b: String) -> u64 { body2(a, b) }
+
+#[cache_async(limit = 4, policy = "tlru", ttl = 10, frequency_weight = 1.5)]
+pub async fn a_tlru_fw(a: u32, b: String) -> u64 { body2(a, b) }
